@@ -123,7 +123,7 @@ def c03_propagation(ctx):
             # has_pending_backward_projection (arg 5) must be false on the non-updated path: it derives from the same comparison
             os_ = df.origins_of_operand(b, cc[0].node["args"][5])
             consts = {str(x.info) for x in os_ if x.kind == "const"}
-            if "const true" in consts and not any(x.kind in ("call", "agg") for x in os_):
+            if ("const true" in consts or "true" in consts) and not any(x.kind in ("call", "agg") for x in os_):
                 ctx.fail(o, cc[0], "has_pending_backward_projection is unconditionally true")
 
 
